@@ -145,10 +145,35 @@ impl<C: Config, Q: Query> Snapshot<C, Q> {
                 let fingerprint = self.engine().hash(&value);
                 let updated = old_node_info.value_fingerprint() != fingerprint;
 
+                // A projection that returns the same value but now reaches
+                // a different set of firewalls is treated like one whose
+                // value has changed: dirty propagation from a firewall stops
+                // at the projection, and with an unchanged value nothing
+                // would leave it, so the queries above would keep a firewall
+                // set that lacks the firewalls this run has just started to
+                // depend on. Their edges are marked dirty (the projections
+                // above are re-run by backward projection); when repaired
+                // they compare equal in value, see the new set fingerprint
+                // and rebuild their sets. (A firewall callee contributes
+                // itself, not its set; dirty propagation does not stop at
+                // normal queries.)
+                let firewall_set_changed = !updated
+                    && old_kind.is_projection()
+                    && {
+                        let new_tfc =
+                            self.engine().create_tfc_from_scc_hash_set(
+                                lock_guard.query_computing().tfc(),
+                            );
+
+                        self.engine().hash(&new_tfc)
+                            != old_node_info
+                                .transitive_firewall_callees_fingerprint()
+                    };
+
                 let mut write_buffer = self.engine().new_write_transaction();
 
                 // if fingerprint has changed, we do dirty propagation
-                if updated {
+                if updated || firewall_set_changed {
                     write_buffer = self
                         .engine()
                         .dirty_propagate_from_batch(
@@ -167,7 +192,7 @@ impl<C: Config, Q: Query> Snapshot<C, Q> {
                     // direction and propagate dirtiness as
                     // needed.
                     (old_kind.is_firewall() || old_kind.is_projection())
-                        && updated,
+                        && (updated || firewall_set_changed),
                 )
             } else {
                 (self.engine().new_write_transaction(), None, false)
